@@ -27,6 +27,7 @@ func main() {
 	goBin := flag.String("go", "/opt/veriftools/go1.26.8/bin/go", "go binary for package loading")
 	modelFile := flag.String("model", "", "replay one model concretely in the interpreter")
 	list := flag.Bool("list", false, "list harnesses")
+	maxPaths := flag.Int("maxpaths", 0, "stop a harness after this many paths (inconclusive)")
 	flag.Parse()
 
 	t0 := time.Now()
@@ -91,6 +92,7 @@ func main() {
 		if v := h.Attrs["z3timeout"]; v != "" {
 			fmt.Sscan(v, &opt.TimeoutMs)
 		}
+		opt.MaxPaths = *maxPaths
 		if v := h.Attrs["maxpaths"]; v != "" {
 			fmt.Sscan(v, &opt.MaxPaths)
 		}
